@@ -24,7 +24,7 @@ CHECKS = {
              'object and with one carrying the context of another release: the connection\'s release decides the bytes. Relay: '
              'every clientbound core packet is decoded by the real PacketReactor.read_packet (socket pair) at release A and written '
              'again under a release B with the same reference fields; the bytes must be B\'s reference frame.',
-        note='The relay pass holds the reactors of both releases at once. The table is recollected (no network): any disagreement on the unchanged tree is adjudicated from in-repo evidence or '
+        note='VarInt-era keep-alive rows include the id -1 as sent on the wire (ff ff ff ff 0f). The relay pass holds the reactors of both releases at once. The table is recollected (no network): any disagreement on the unchanged tree is adjudicated from in-repo evidence or '
              'the row dropped - none was needed. NBT fields use one fixed blob. Trusted: TLC, pynbt for the blob.',
         design='5/C07'),
     'C05': dict(
@@ -43,7 +43,7 @@ CHECKS = {
              'reference encoders cover TLC recomputes the payload from (id, typed field values). Programs include the '
              'context-dependent leaf Position, flat and inside nested arrays, encoded under both layouts and replayed under a context '
              'of the matching era.',
-        note='All 369 known versions are swept: the 119 not supported as shipped are declared supported at run time first (documented mechanism), and restored. Every round trip is preceded by a write that fails part-way. Half of the generated strings are built from special code points (section sign, controls, NUL, BOM, non-characters, quotes, bidi / zero-width). Trusted: TLC, pynbt (opaque), the harness\'s value generators and hand-written builders for the six hand-written codecs. A '
+        note='String fields occasionally hold up to 16400 characters needing more than 32767 bytes. All 369 known versions are swept: the 119 not supported as shipped are declared supported at run time first (documented mechanism), and restored. Every round trip is preceded by a write that fails part-way. Half of the generated strings are built from special code points (section sign, controls, NUL, BOM, non-characters, quotes, bidi / zero-width). Trusted: TLC, pynbt (opaque), the harness\'s value generators and hand-written builders for the six hand-written codecs. A '
              'change applied consistently to reader and writer of a hand-written codec is C07\'s to catch for core packets.',
         design='5/C05'),
     'C20': dict(
@@ -61,7 +61,7 @@ CHECKS = {
              'record class hierarchies with the parent class exercised first), attribute aliases and the flag names '
              'of every value 0..255 of the library\'s three flag enums and of generated enums (name parses back; None only when the value '
              'is no union of members) are checked by TLC on recorded observations.',
-        note='Every other map update is written to bytes and read by one re-used MapPacket object. Map updates whose last row is not full; the map keeps its size. Every attribute alias the library declares is discovered by walking its classes and probed in both directions; generated flag enums include enums extending another enum and overriding a member. Trusted: TLC, the projection of the real objects. Integer-valued coordinates; a 4x4 window of the 128x128 map.',
+        note='Application-declared keyword aliases (permuted keywords, non-iterable containers, mixed). Every other map update is written to bytes and read by one re-used MapPacket object. Map updates whose last row is not full; the map keeps its size. Every attribute alias the library declares is discovered by walking its classes and probed in both directions; generated flag enums include enums extending another enum and overriding a member. Trusted: TLC, the projection of the real objects. Integer-valued coordinates; a 4x4 window of the 128x128 map.',
         design='5/C20'),
     'C19': dict(
         technique='TLA+ model of the token (AuthToken.tla): one transition per (stored-field subset, operation, reply status x body '
@@ -76,7 +76,7 @@ CHECKS = {
              '(endpoint URL, JSON content type, payload incl. agent block and the clientToken rule, or no request at all), the return '
              'value or YggdrasilError (status code, service error fields or the malformed message), the stored fields afterwards and '
              'the authenticated property are compared with the model.',
-        note='The service stand-in sits at urllib3 HTTPConnectionPool._make_request (below sessions, adapters and retry policies); rate-limiting replies carry Retry-After every other time. Trusted: TLC. The service is a stand-in inside the process (requests.post replaced by a recorder returning real '
+        note='Error objects are compared field by field including cause. The service stand-in sits at urllib3 HTTPConnectionPool._make_request (below sessions, adapters and retry policies); rate-limiting replies carry Retry-After every other time. Trusted: TLC. The service is a stand-in inside the process (requests.post replaced by a recorder returning real '
              'requests.Response objects). Combinations the property does not constrain are recorded as "any".',
         design='5/C19'),
     'C18': dict(
@@ -92,7 +92,7 @@ CHECKS = {
              'lengths 1..64, 1024- and 2048-bit keys). Traces come from whole encrypted logins against the independent peer (which '
              'encrypts with its own CFB8 loop, so interoperation is exercised) and from the wrappers driven directly with random '
              'partitions in both directions.',
-        note='Login-reactor traces with a packet already queued when the encryption request is handled: nothing follows the response in plaintext. Half of the encrypted logins carry an ordinary outgoing listener on the encryption response (returning, or raising IgnorePacket). Groups of three logins through one Connection object must negotiate distinct secrets. Trusted: TLC arithmetic / Bitwise overrides, Python pow() for the private-key operation. Randomness is checked for source, '
+        note='One send on the underlying socket may be interrupted (EINTR) before transferring anything: the peer decrypts exactly what was handed in up to there. Login-reactor traces with a packet already queued when the encryption request is handled: nothing follows the response in plaintext. Half of the encrypted logins carry an ordinary outgoing listener on the encryption response (returning, or raising IgnorePacket). Groups of three logins through one Connection object must negotiate distinct secrets. Trusted: TLC arithmetic / Bitwise overrides, Python pow() for the private-key operation. Randomness is checked for source, '
              'use and distinctness only. About 2.5 KB (quick) of stream are recomputed by the TLA+ AES.',
         design='5/C18'),
     'C17': dict(
@@ -139,7 +139,7 @@ CHECKS = {
              'per-thread reordering, a close before the flush, bytes after an immediate disconnect, lost forced writes, and an '
              'undecodable stream. Writers also race an encrypted login (forced write + cipher swap under the lock), and bursts of '
              '301-620 queued packets - more than the networking thread\'s 300-packet write batch - precede a non-immediate disconnect.',
-        note='Outgoing listeners that call disconnect() from inside the write of a packet. Bursts go up to 4200 queued packets (nothing handed in may be dropped). Second sessions: packets queued, disconnect(immediate), connect(), packets queued, disconnect() on one Connection - the second TCP connection carries its own handshake and exactly its own packets (this scenario found the defect repaired by 29c3a80). Also: user-defined packets whose serialisation force-writes another packet on the same connection (re-entrant write lock). Every client frame of every execution is also judged by the connection-state grammar Trace_Session.tla. Trusted: TLC, scheduler and virtual primitives, CPython deque atomicity, the peer\'s deframer. Writes issued after the '
+        note='After a reset by the peer, disconnect() still closes socket and file object (virtual shutdown() reports ENOTCONN then). Outgoing listeners that call disconnect() from inside the write of a packet. Bursts go up to 4200 queued packets (nothing handed in may be dropped). Second sessions: packets queued, disconnect(immediate), connect(), packets queued, disconnect() on one Connection - the second TCP connection carries its own handshake and exactly its own packets (this scenario found the defect repaired by 29c3a80). Also: user-defined packets whose serialisation force-writes another packet on the same connection (re-entrant write lock). Every client frame of every execution is also judged by the connection-state grammar Trace_Session.tla. Trusted: TLC, scheduler and virtual primitives, CPython deque atomicity, the peer\'s deframer. Writes issued after the '
              'connection has been closed are outside the contract.',
         design='5/C12'),
     'C16': dict(
@@ -197,7 +197,7 @@ CHECKS = {
              'WellFramed / PayloadRecovered over boundary sizes x thresholds x deflated sizes (the variant sizing the header by the '
              'deflated length must fail); frames of the real writer are measured without trusting their declared lengths (the end of the '
              'deflate stream is found by inflating) and judged by Trace_FrameWriter.tla.',
-        note='Compression and encryption are announced in either order. Also: compression enabled with threshold -1 as the state of a live connection (both directions). Every client frame of every execution is also judged by the connection-state grammar Trace_Session.tla. Trusted: TLC, virtual socket layer, zlib, the peer codec (AES block from cryptography, checked by C18). The exact '
+        note='Unknown packets carry ids from a pool of nine; the listener keeps the packet objects and they are judged at the end. Compression and encryption are announced in either order. Also: compression enabled with threshold -1 as the state of a live connection (both directions). Every client frame of every execution is also judged by the connection-state grammar Trace_Session.tla. Trusted: TLC, virtual socket layer, zlib, the peer codec (AES block from cryptography, checked by C18). The exact '
              'compress-iff-larger-than-threshold rule is model-level (drift), the contract requires recoverability and no compressed '
              'frame below the threshold.',
         design='5/C01'),
@@ -217,7 +217,7 @@ CHECKS = {
              'configurations one and the same callable is registered for several listeners of a list) '
              'code with the registration order shuffled across lists and the exact call log and the answers the peer saw compared; '
              'random configurations with up to 3 listeners per list are judged by TLC running the model from the recorded configuration.',
-        note='Half of the executions register bound methods of otherwise unreferenced objects. Decorator objects (the value of Connection.listener(...)) are re-used for several functions. Incoming listeners (superclass filters among them) may be registered after packets of their classes have been dispatched (Dispatch!late). Also: early listeners that call disconnect() on their own connection (only \'ignore\' stops stages: DisconnectingListenerStopsNothing). Trusted: TLC, virtual socket layer, peer codec. Listeners are registered while the networking thread is idle.',
+        note='A listener that force-writes a matching packet from inside its callback: the order law applied recursively. Half of the executions register bound methods of otherwise unreferenced objects. Decorator objects (the value of Connection.listener(...)) are re-used for several functions. Incoming listeners (superclass filters among them) may be registered after packets of their classes have been dispatched (Dispatch!late). Also: early listeners that call disconnect() on their own connection (only \'ignore\' stops stages: DisconnectingListenerStopsNothing). Trusted: TLC, virtual socket layer, peer codec. Listeners are registered while the networking thread is idle.',
         design='5/C13'),
     'C09': dict(
         technique='TLA+ model of construction / negotiation / status queries (SessionNegotiate.tla) explored exhaustively; every '
@@ -231,7 +231,7 @@ CHECKS = {
              'versions given as names or numbers over four protocol maps (incl. 2^30-flagged numbers, first and last supported); the '
              'frames the peer decoded on each TCP connection, the connection count, the surfaced exception (class, server_protocol, '
              'wording supported/allowed), handler calls, latency sign, close and exit callback are compared with the model.',
-        note='A quarter of the login scenarios carry a token whose profile is filled in after the Connection was constructed. Also: a status query after a failed attempt on the same Connection object. The scenarios are re-run after the supported-version table has been changed at run time (one version added, one withdrawn, initglobals()). Every client frame of every execution is also judged by the connection-state grammar Trace_Session.tla. Trusted: TLC, virtual socket layer, peer codec. The status-phase handshake may carry any allowed version (contract); the '
+        note='Reported protocol numbers include negative ones. A quarter of the login scenarios carry a token whose profile is filled in after the Connection was constructed. Also: a status query after a failed attempt on the same Connection object. The scenarios are re-run after the supported-version table has been changed at run time (one version added, one withdrawn, initglobals()). Every client frame of every execution is also judged by the connection-state grammar Trace_Session.tla. Trusted: TLC, virtual socket layer, peer codec. The status-phase handshake may carry any allowed version (contract); the '
              'model says the latest. Default handlers are observed through captured stdout.',
         design='5/C09'),
     'C10': dict(
@@ -249,7 +249,7 @@ CHECKS = {
              'Runs of plugin requests are sent one at a time and back to back (also back to back with the encryption request that '
              'follows them); the server key comes in three encodings; disconnect reasons cover JSON objects, bare JSON '
              'strings / arrays / null / numbers and non-JSON text.',
-        note='Plugin requests padded to exactly the compression threshold arrive compressed (the peer compresses from the threshold upwards). Also: logins that fail after compression / encryption were switched on and are retried from an exception handler must start from scratch. Every client frame of every execution is also judged by the connection-state grammar Trace_Session.tla. Trusted: TLC, virtual socket layer, peer codec, cryptography package for RSA and the AES block, hashlib for the join '
+        note='Outdated-client / outdated-server messages also name versions the library does not know. Plugin requests padded to exactly the compression threshold arrive compressed (the peer compresses from the threshold upwards). Also: logins that fail after compression / encryption were switched on and are retried from an exception handler must start from scratch. Every client frame of every execution is also judged by the connection-state grammar Trace_Session.tla. Trusted: TLC, virtual socket layer, peer codec, cryptography package for RSA and the AES block, hashlib for the join '
              'hash oracle (C17 checks that against TLA+). Thresholds 0,1,64,256,2^31-1 with user-handler payloads sized '
              'thr-1/thr/thr+1.',
         design='5/C10'),
@@ -296,7 +296,7 @@ CHECKS = {
              'layout the code uses at each of the known protocol versions and TLC checks the vector is XYZ up to '
              '404, XZY from 477 with a single switch; every row is replayed at representative versions of its layout '
              'and seeded random triples at random versions are recomputed by TLC.',
-        note='A context object taken from a Connection before a negotiated connect() packs positions for the negotiated protocol afterwards. Also: a packet carrying another era\'s context written through Connection.write_packet must hold the position word of the connection\'s era. Trusted: TLC, JSON hand-over; chronological rank from the code\'s own version list (C08 checks it). '
+        note='Versions made known at run time pack positions x, z, y. A context object taken from a Connection before a negotiated connect() packs positions for the negotiated protocol afterwards. Also: a packet carrying another era\'s context written through Connection.write_packet must hold the position word of the connection\'s era. Trusted: TLC, JSON hand-over; chronological rank from the code\'s own version list (C08 checks it). '
              'Full boundary product only in the thorough tier; quick uses a reduced product plus full per-axis sweeps.',
         design='5/C04'),
     'C06': dict(
